@@ -32,6 +32,8 @@ class Walker:
         self.trace = []             # op names, for signatures
         self.keep = []              # bases of view-produced operands stay alive, so that aliasing between base and view is observable
         self.derived = 0
+        self.recent = []            # (name, built) of recently judged calls: repeat() re-issues one after an in-place change of an operand
+        self._force = None
         self.judge = set(judge)     # operation names whose returned VALUE is compared with a dense model of the operands as they are at the call (history oracle)
 
     # ---- operand supply -------------------------------------------------------------------------------
@@ -101,6 +103,10 @@ class Walker:
 
     def pick(self, kind=None):
         """An object from the pool (kind 'tt' / 'ttm' / None), else a fresh one."""
+        if self._force is not None:
+            f, self._force = self._force, None
+            if kind is None or f.is_ttm == (kind == 'ttm'):
+                return f
         cands = [o for o in self.pool if kind is None or (o.is_ttm == (kind == 'ttm'))]
         if cands and not (self.views and self.rng.random() < 0.5):
             return self.rng.choice(cands)
@@ -121,6 +127,24 @@ class Walker:
         if cands and self.rng.random() < 0.5 and not self.views:
             return self.rng.choice(cands)
         return self.fresh(N, M if ttm else None)
+
+    def guess(self, x, N=None, M=None, ttm=None):
+        """An initial guess for an iterative routine: usually like(); in a quarter of the draws a degenerate one the library itself hands out or a user would
+        write - the zero tensor, a tensor with one exactly zero core, all ones (such guesses must neither be modified nor spoil the result)."""
+        u = self.rng.random()
+        if u >= 0.25:
+            return self.like(x, N=N, M=M, ttm=ttm)
+        ttm = x.is_ttm if ttm is None else ttm
+        N = list(x.N) if N is None else list(N)
+        M = ((list(x.M) if x.is_ttm else list(N)) if M is None else list(M)) if ttm else None
+        self.ctx.count('degenerate_initial_guess')
+        if u < 0.08:
+            return self.fresh(N, M, vals='zero', view='plain')
+        if u < 0.17:
+            b = self.fresh(N, M, view='plain')
+            j = self.rng.randrange(len(N))
+            return self.tt.TT([torch.zeros_like(c) if k == j else c.clone() for k, c in enumerate(b.cores)])
+        return self.tt.ones(N, dtype=self.dt) if not ttm else self.fresh(N, M, R=[1] * (len(N) + 1), view='plain')
 
     def admit(self, r):
         tt = self.tt
@@ -149,17 +173,39 @@ class Walker:
             self.pool.pop(self.rng.randrange(len(self.pool) - 1))
 
     # ---- one step -------------------------------------------------------------------------------------
-    def step(self, opname=None):
+    def repeat(self):
+        """call; in-place change of one operand (set_core / raw core write); THE SAME call again, judged against the operand's current value:
+        a result memoised on the object (or on its identity) and not invalidated by the change is stale here."""
+        if not self.recent:
+            return None
+        name, built = self.rng.choice(self.recent)
+        tts = [a for a in built[2] if isinstance(a, self.tt.TT)]
+        if not tts:
+            return None
+        self._force = self.rng.choice(tts)
+        try:
+            self.step(self.rng.choice(('set_core', 'core_write', 'core_write')))
+        finally:
+            self._force = None
+        self.ctx.count('history_repeat_after_inplace')
+        return self.step(name, built=built)
+
+    def step(self, opname=None, built=None):
         name = opname or self.rng.choice(OP_NAMES)
         fn = OPS[name]
-        try:
-            built = fn(self)
-        except _NA:
-            self.ctx.count('op_not_applicable')
-            return None
+        if built is None:
+            try:
+                built = fn(self)
+            except _NA:
+                self.ctx.count('op_not_applicable')
+                return None
         if built is None:
             return None
-        label, f, args, kw = built[0], built[1], built[2], (built[3] if len(built) > 3 else {})
+        label, f, args, kw = built[0], built[1], built[2], dict(built[3] if len(built) > 3 else {})
+        if name in self.judge and '_model' in kw:
+            self.recent.append((name, built))
+            if len(self.recent) > 6:
+                self.recent.pop(0)
         inplace = kw.pop('_inplace', ())
         model = kw.pop('_model', None)
         expect = None
@@ -200,6 +246,7 @@ class Walker:
         self.trace.append(label)
         if isinstance(r, Raised):
             self.ctx.count('step_raised')
+            self.ctx.count('raised_then_wf_checked')     # the quiescent-point checks (WF over all live objects) ran after the exceptional return
             self.ctx.count('raised:' + r.type)
             return r
         self.ctx.count('step_returned')
@@ -416,6 +463,13 @@ def _(w):
     return 'neg', lambda a: -a, (w.pick(),), {'_model': lambda a: _m(-a, _n(a))}
 
 
+@op('t')
+def _(w):
+    A = w.pick('ttm')
+    d_ = len(A.N)
+    return 't()', lambda a: a.t(), (A,), {'_model': lambda a: _m(a.permute(list(range(d_, 2 * d_)) + list(range(d_))), _n(a))}
+
+
 @op('pos')
 def _(w):
     return 'pos', lambda a: +a, (w.pick(),), {'_model': lambda a: _m(a, _n(a))}
@@ -516,8 +570,11 @@ def _(w):
     if which < 0.5:
         k = w.rng.randrange(d)
         return 'sum(int)', lambda a: a.sum(k), (x,), {'_model': lambda a: _m(a.sum(dim=[k, d + k] if ttm_ else [k]), float(a.abs().sum()), 0.0, False)}
-    ks = sorted(w.rng.sample(range(d), w.rng.randint(1, d)))
-    return 'sum(list)', lambda a: a.sum(ks), (x,), {'_model': lambda a: _m(a.sum(dim=ks + [d + k_ for k_ in ks] if ttm_ else ks), float(a.abs().sum()), 0.0, False)}
+    ks = w.rng.sample(range(d), w.rng.randint(1, d))          # a set of modes, in any order
+    if w.rng.random() < 0.5:
+        ks = sorted(ks)
+    kss = sorted(ks)
+    return 'sum(list)', lambda a: a.sum(list(ks)), (x,), {'_model': lambda a: _m(a.sum(dim=kss + [d + k_ for k_ in kss] if ttm_ else kss), float(a.abs().sum()), 0.0, False)}
 
 
 @op('dot')
@@ -699,7 +756,7 @@ def _(w):
     A = w.pick('ttm')
     x = w.like(A, N=list(A.N), ttm=False)
     if w.rng.random() < 0.5:
-        y0 = w.like(A, N=list(A.M), ttm=False)
+        y0 = w.guess(A, N=list(A.M), ttm=False)
         return 'fast_matvec(initial)', lambda a, b, c: a.fast_matvec(b, eps=1e-6, initial=c, use_cpp=False, **_nk(w)), (A, x, y0), _itm(w, lambda a, b, c: torch.tensordot(a, b, dims=b.dim()))
     return 'fast_matvec', lambda a, b: a.fast_matvec(b, eps=1e-6, use_cpp=False, **_nk(w)), (A, x), _itm(w, lambda a, b: torch.tensordot(a, b, dims=b.dim()))
 
@@ -709,7 +766,7 @@ def _(w):
     x = w.pick('tt')
     y = w.like(x)
     if w.rng.random() < 0.5:
-        z0 = w.like(x)
+        z0 = w.guess(x)
         return 'dmrg_hadamard(z0)', lambda a, b, c: w.tt.dmrg_hadamard(a, b, z0=c, eps=1e-6, **_nk(w)), (x, y, z0), _itm(w, lambda a, b, c: a * b)
     return 'dmrg_hadamard', lambda a, b: w.tt.dmrg_hadamard(a, b, eps=1e-6, **_nk(w)), (x, y), _itm(w, lambda a, b: a * b)
 
@@ -719,7 +776,7 @@ def _(w):
     A = w.pick('ttm')
     x = w.like(A, N=list(A.N), ttm=False)
     if w.rng.random() < 0.5:
-        x0 = w.like(A, N=list(A.M), ttm=False)
+        x0 = w.guess(A, N=list(A.M), ttm=False)
         return 'amen_mv(x0)', lambda a, b, c: w.tt.amen_mv(a, b, x0=c, eps=1e-6, **_nk(w)), (A, x, x0), _itm(w, lambda a, b, c: torch.tensordot(a, b, dims=b.dim()), real_only=True)
     return 'amen_mv', lambda a, b: w.tt.amen_mv(a, b, eps=1e-6, **_nk(w)), (A, x), _itm(w, lambda a, b: torch.tensordot(a, b, dims=b.dim()), real_only=True)
 
@@ -730,7 +787,7 @@ def _(w):
     K = [w.rng.choice((1, 2)) for _ in A.N]
     B = w.like(A, N=K, M=list(A.N), ttm=True)
     if w.rng.random() < 0.5:
-        X0 = w.like(A, N=K, M=list(A.M), ttm=True)
+        X0 = w.guess(A, N=K, M=list(A.M), ttm=True)
         return 'amen_mm(X0)', lambda a, b, c: w.tt.amen_mm(a, b, X0=c, eps=1e-6, **_nk(w)), (A, B, X0), _itm(w, lambda a, b, c: torch.tensordot(a, b, dims=a.dim() // 2), real_only=True)
     return 'amen_mm', lambda a, b: w.tt.amen_mm(a, b, eps=1e-6, **_nk(w)), (A, B), _itm(w, lambda a, b: torch.tensordot(a, b, dims=a.dim() // 2), real_only=True)
 
@@ -831,6 +888,29 @@ def _(w):
     core = gens.values(sh, x.cores[k].dtype, 'gauss', w.g)
     w.derived += 1
     return 'set_core', lambda a: a.set_core(k, core), (x,), {'_inplace': (x,)}
+
+
+@op('set_core_rejected')
+def _(w):
+    """set_core with a core the object cannot take (wrong number of dimensions with matching ranks, a wrong rank, a bad position): whatever the call does -
+    it raises today - every object must still be self-consistent afterwards (C05 quantifies over all sequences of public calls, rejected ones included)."""
+    x = w.pick()
+    d = len(x.N)
+    k = w.rng.randrange(d)
+    sh = list(x.cores[k].shape)
+    how = w.rng.choice(['ndim', 'ndim', 'left-rank', 'right-rank', 'position', '2-d'])
+    if how == 'ndim':
+        sh = [sh[0], sh[1], w.rng.choice((1, 2)), sh[-1]] if not x.is_ttm else [sh[0], sh[1], sh[-1]]
+    elif how == 'left-rank':
+        sh[0] += 1
+    elif how == 'right-rank':
+        sh[-1] += 1
+    elif how == '2-d':
+        sh = [sh[0], sh[-1]]
+    kk = k if how != 'position' else w.rng.choice((d, -1 - d, d + 3))
+    core = gens.values(sh, x.cores[k].dtype, 'gauss', w.g)
+    w.derived += 1
+    return 'set_core(rejected:%s)' % how, lambda a: a.set_core(kk, core), (x,), {'_inplace': (x,)}
 
 
 @op('reduce_dims')
